@@ -110,6 +110,12 @@ def check(rep, tier, seed):
                 p_c10.await_source(p.events, others[0]) is p_c10.await_source(p.events, sig.rargs[0])
             ob("authorization value = '<scheme> <key id> <MAC>' from the scheme constant, the key id and this request's MAC, key id and secret from one key read",
                has_scheme and has_sig and guid_ok, "C04.header-value", "leaves %r" % (leaves,))
+            fpi = p.index(fp) if fp is not None else 0
+            touch = [e for e in p.events[fpi + 1:p.index(relay)] if e.kind == "call" and re.search(r"(HeaderMap::|Request::(headers_mut|uri_mut|method_mut|version_mut|body_mut|extensions_mut))", e.callee)
+                     and not e.callee.endswith("Request::headers_mut") and e is not ai]
+            hm_calls = [e for e in p.events[fpi + 1:p.index(relay)] if e.kind == "call" and e.callee.endswith("Request::headers_mut")]
+            ob("between building the forwarded request and relaying it the only change is the one authorization insert (what is signed is what is sent)",
+               not touch and len(hm_calls) == 1, "C04.signed-equals-sent", "other mutations: %s; headers_mut calls: %d" % ([e.callee.split("::")[-1] for e in touch], len(hm_calls)))
             ob("the header is inserted into the request that is relayed, after signing, and nothing else touches it afterwards",
                same_origin(map_owner(p, ai), sent) and p.index(ai) > p.index(sig) and
                not [e for e in p.events[p.index(ai) + 1:p.index(relay)] if e.kind == "call" and re.search(r"(headers_mut|HeaderMap::|uri_mut|method_mut|body_mut)", e.callee)],
